@@ -1007,6 +1007,15 @@ config_default_ncpu(struct config *cf, const char *name)
 	ncpu = sysconf(_SC_NPROCESSORS_ONLN);
 	if (ncpu == -1)
 		ncpu = 1;
+#ifdef ROBSD_VERIF
+	{
+		/* Verification hook: explore small ncpu values on large hosts. */
+		const char *verif_ncpu = getenv("ROBSD_VERIF_NCPU");
+
+		if (verif_ncpu != NULL && atoi(verif_ncpu) > 0)
+			ncpu = atoi(verif_ncpu);
+	}
+#endif
 	variable_value_init(&val, INTEGER);
 	val.integer = ncpu;
 	return config_append(cf, name, &val);
